@@ -41,6 +41,9 @@ pub struct GenCfg {
     pub latency_us: u64, // fixed one-way latency (timesync family), 0 = deliver at the next step
     pub step_us: u64,
     pub outages: Vec<(usize, usize, u64, u64)>, // src,dst,from,to (us)
+    /// src,dst,until (us),keep: the link keeps every packet in flight until `until`, then delivers
+    /// the oldest `keep` of them in order and loses the rest
+    pub holds: Vec<(usize, usize, u64, usize)>,
     pub mfb: usize,
     pub cs: usize,
 }
@@ -51,6 +54,8 @@ pub struct Gen {
     pub w: World,
     pub peers: Vec<Peer>,
     pub cfg: GenCfg,
+    /// the magic number each endpoint (link src → dst) stamps its packets with, once seen on the wire
+    pub magic_of: std::collections::HashMap<(usize, usize), String>,
     /// late duplicates: (release time, dst, src, message text)
     pub stash: Vec<(u64, usize, usize, String)>,
     /// fixed-latency links: enqueue times of the packets in flight, per link
@@ -68,7 +73,7 @@ impl Gen {
             "death3" | "three" => 3 + rng.below(2) as usize,
             // a single peer that owns every player (with or without spectators)
             "solo" => 1,
-            "timesync" | "lossack" | "death" | "zombie" | "disc" | "specack" | "specdeath" | "specdisc" | "idle" | "glitch" | "forge" | "evq" => 2,
+            "timesync" | "lossack" | "death" | "zombie" | "disc" | "specack" | "specdeath" | "specdisc" | "hsloss" | "idle" | "glitch" | "forge" | "evq" => 2,
             _ => *rng.pick(&[2usize, 2, 2, 3, 3, 4]),
         };
         let players_per_peer: Vec<usize> = if family == "solo" {
@@ -116,10 +121,13 @@ impl Gen {
                 "mix" | "death" | "spec" => *rng.pick(&[0u64, 0, 0, 20]),
                 // stale copies of the host's packets keep arriving at the spectator long after a drop
                 "specdisc" => *rng.pick(&[150u64, 300, 600]),
+                // replies of the handshake are lost for a long time, copies of them arrive late
+                "hsloss" => *rng.pick(&[500u64, 800, 950]),
                 _ => 0,
             },
             step_us: *rng.pick(&[2000u64, 4000, 8000, 16000]),
             outages: vec![],
+            holds: vec![],
             mfb: *rng.pick(&[1usize, 2, 5, 10, 10, 30, 59]),
             cs: *rng.pick(&[1usize, 1, 2, 5, 60, 200]),
         };
@@ -169,6 +177,24 @@ impl Gen {
                 let from = 400_000 + rng.below(600_000);
                 let len = 50_000 + rng.below(1_200_000);
                 cfg.outages.push((3, 1, from, from + len));
+            }
+            "hsloss" => {
+                // one direction of the link is dead from the start for one to three seconds: the
+                // handshake requests of one side are answered into the void (many retries, many
+                // outstanding requests), while late copies of the early replies trickle in
+                cfg.p_drop = 0;
+                cfg.p_deliver = 100;
+                cfg.dt = 3000;
+                let (a, b) = if rng.chance(1, 2) { (1, 2) } else { (2, 1) };
+                if rng.chance(1, 2) {
+                    cfg.outages.push((a, b, 0, 1_300_000 + rng.below(1_500_000)));
+                } else {
+                    // the replies are not lost but stuck: after the hold the oldest few come through
+                    // (answers to the earliest requests), the others are lost
+                    cfg.p_late = 0;
+                    cfg.holds.push((a, b, 1_300_000 + rng.below(1_500_000), 1 + rng.below(8) as usize));
+                }
+                cfg.duration_ticks = 200 + rng.below(150);
             }
             "specdisc" => {
                 // a host with a spectator drops the other peer (explicitly or by timeout) on an
@@ -220,7 +246,7 @@ impl Gen {
     pub fn new(seed: u64, family: &str) -> Gen {
         let mut rng = Rng(seed);
         let cfg = Self::draw_cfg(&mut rng, family);
-        Gen { rng, ops: vec![], w: World::new(), peers: vec![], cfg, stash: vec![], flight: Default::default() }
+        Gen { rng, ops: vec![], w: World::new(), peers: vec![], cfg, magic_of: Default::default(), stash: vec![], flight: Default::default() }
     }
 
     /// Creates the sessions: peers 1..=n (address = sid), spectators n+1.. attached to peer 1
@@ -414,6 +440,17 @@ impl Gen {
             }
         }
         let links = self.w.links();
+        if self.cfg.family == "zombie" {
+            for (src, dst, n) in links.iter() {
+                if *n > 0 && !self.magic_of.contains_key(&(*src, *dst)) {
+                    if let Some(text) = self.w.peek(*src, *dst, 0) {
+                        if let Some(m) = text.split_whitespace().next() {
+                            self.magic_of.insert((*src, *dst), m.to_owned());
+                        }
+                    }
+                }
+            }
+        }
         if self.cfg.latency_us > 0 {
             // a lossless FIFO link with a fixed one-way latency
             let now = self.w.now_us;
@@ -439,6 +476,21 @@ impl Gen {
         }
         for (src, dst, n) in links {
             if n == 0 {
+                continue;
+            }
+            if let Some(pos) = self.cfg.holds.iter().position(|h| h.0 == src && h.1 == dst) {
+                let (_, _, until, keep) = self.cfg.holds[pos];
+                if self.w.now_us < until {
+                    continue;
+                }
+                self.cfg.holds.remove(pos);
+                for k in 0..n {
+                    if k < keep {
+                        self.emit(format!("deliver {src} {dst} 0"));
+                    } else {
+                        self.emit(format!("drop {src} {dst} 0"));
+                    }
+                }
                 continue;
             }
             if self.in_outage(src, dst) {
@@ -545,6 +597,13 @@ impl Gen {
             "zombie" if self.rng.chance(1, 2) => {
                 let dead: Vec<usize> = self.peers.iter().filter(|p| !p.alive && !p.is_spec).map(|p| p.sid).collect();
                 for v in dead {
+                    // ... or from an address nobody has registered, stamped with the dead peer's own
+                    // magic number (its packets were seen on the wire): not from the peer either
+                    if let Some(m) = self.magic_of.get(&(v, sid)).cloned() {
+                        if self.rng.chance(1, 2) {
+                            self.emit(format!("inject {sid} 99 {m} KeepAlive"));
+                        }
+                    }
                     let magic = 1 + self.rng.below(2);
                     let body = match self.rng.below(3) {
                         0 => "KeepAlive".to_owned(),
